@@ -198,6 +198,10 @@ func encodeResults(w io.Writer, runLogs []string, results RunResults,
 		if splitOutputs {
 			stateMap := make(map[string]interface{})
 			for i, state := range description.States {
+				if i >= stateArray.Len(0) {
+					// fewer state values than names (e.g. an empty lag buffer)
+					break
+				}
 				singleState := stateArray.Get([]int{i})
 				stateMap[state] = owjs.JsonSafeValue(singleState)
 			}
